@@ -71,6 +71,11 @@ indexing of its place).  `none` = a Rust panic.  A function without any panic si
   consts      kind "const": an associated `const NAME: T = <struct literal>`.
 Anything else raises TranslateError -> reported as a broken extraction (the generated placeholder makes the tie theorem fail);
 nothing is skipped silently.
+After audit 3 (tools/ktx_glue_guard.py): lookups see only COMPILED items (item `#[cfg]` evaluated with the guard's table) and must be
+unique; statement attributes, nested items other than the kernels the spec maps (`local_ext`), `let x = &mut …` aliases, re-bound
+`&mut` parameters and changed imports of a used name are refused; `debug_assert!(c)` is translated as the guard
+`if Glue.debugAssert (c) then … else none` (lean/CxVerif/Util/GlueDebug.lean: a wrapper that is not definitionally `c`), so that
+`assert!` <-> `debug_assert!` in the source changes the generated text and breaks the tie.
 """
 import os
 import re
@@ -79,6 +84,7 @@ import kernel_translate as KT
 from kernel_translate import TranslateError, lex, strip_comments
 import ktx_misc
 from ktx_misc import P2
+import ktx_glue_guard as GUARD
 
 LEAN_KEYWORDS = ktx_misc.LEAN_KEYWORDS | {"cnt", "fuel"}
 
@@ -265,25 +271,39 @@ def balanced_end(text, i):
     return i
 
 
+def scope_block(text, scope):
+    """text of the `{ … }` opened by THE match of regex `scope` among the compiled items (a cfg-disabled `impl` is not a place to look in)"""
+    masked = GUARD.mask_literals(text)
+    live = []
+    for m in re.finditer(scope, text):
+        hs = max(masked.rfind(";", 0, m.start()), masked.rfind("}", 0, m.start()), masked.rfind("{", 0, m.start())) + 1
+        kw = re.search(r"\b(?:unsafe\s+)?(?:impl|trait|mod)\b", masked[hs:m.end()])
+        if GUARD.attrs_live(GUARD.attrs_before(text, hs + kw.start() if kw else m.start()), f"scope {scope!r}"):
+            live.append(m)
+    if not live:
+        raise TranslateError(f"scope {scope!r} not found (among the compiled items)")
+    if len(live) > 1:
+        raise TranslateError(f"scope {scope!r} is ambiguous")
+    j = masked.index("{", live[0].end() - 1)
+    return text[j + 1:GUARD.close_of(masked, j) - 1]
+
+
 def find_fn_unique(src, fn, scope=None):
     """(header, body) of THE `fn <fn>` directly inside the block opened by regex `scope` (or at top level of the file);
     nested fns and a second definition of the same name in the scope are refused"""
     text = strip_comments(src)
     if scope:
-        ms = list(re.finditer(scope, text))
-        if not ms:
-            raise TranslateError(f"scope {scope!r} not found")
-        if len(ms) > 1:
-            raise TranslateError(f"scope {scope!r} is ambiguous")
-        j = text.index("{", ms[0].end() - 1)
-        block = text[j + 1:balanced_end(text, j + 1) - 1]
+        block = scope_block(text, scope)
     else:
         block = text
     found = []
-    for m in re.finditer(r"\bfn\s+" + re.escape(fn) + r"\b", block):
-        pre = block[:m.start()]
+    masked = GUARD.mask_literals(block)
+    for m in re.finditer(r"\bfn\s+" + re.escape(fn) + r"\b", masked):
+        pre = masked[:m.start()]
         if pre.count("{") != pre.count("}"):
             continue
+        if not GUARD.attrs_live(GUARD.attrs_before(block, m.start()), f"fn {fn}"):
+            continue                      # not compiled: item #[cfg] evaluated with the table of tools/ktx_glue_guard.py
         depth, j = 0, m.end()
         while j < len(block):
             c = block[j]
@@ -330,15 +350,13 @@ def find_const_item(src, name, scope=None):
     text = strip_comments(src)
     block = text
     if scope:
-        ms = list(re.finditer(scope, text))
-        if len(ms) != 1:
-            raise TranslateError(f"scope {scope!r} not found or ambiguous")
-        j = text.index("{", ms[0].end() - 1)
-        block = text[j + 1:balanced_end(text, j + 1) - 1]
+        block = scope_block(text, scope)
     found = []
     for m in re.finditer(r"\bconst\s+" + re.escape(name) + r"\s*:", block):
         pre = block[:m.start()]
         if pre.count("{") != pre.count("}"):
+            continue
+        if not GUARD.attrs_live(GUARD.attrs_before(block, m.start()), f"const {name}"):
             continue
         depth, j = 0, m.end()
         eq = None
@@ -364,9 +382,11 @@ def find_const_item(src, name, scope=None):
 def find_struct_fields(src, name):
     """[(field name, type ast)] of `struct <name> { … }`; tuple structs `struct N(T);` -> [("0", T)]"""
     text = strip_comments(src)
-    m = re.search(r"\bstruct\s+" + re.escape(name) + r"\b\s*([({])", text)
-    if not m:
-        raise TranslateError(f"struct {name} not found")
+    ms = [m for m in re.finditer(r"\bstruct\s+" + re.escape(name) + r"\b\s*([({])", text)
+          if GUARD.attrs_live(GUARD.attrs_before(text, m.start()), f"struct {name}")]
+    if len(ms) != 1:
+        raise TranslateError(f"struct {name}: {len(ms)} live declarations; exactly one is required")
+    m = ms[0]
     if m.group(1) == "(":
         depth, j = 1, m.end()
         while j < len(text) and depth:
@@ -1915,9 +1935,15 @@ class Tr:
     def do_macro(self, e, st, rest):
         name, args = e[1], e[2]
         if name in ("assert", "debug_assert") and len(args) >= 1:
-            c_ast = PC(list(args[0])).expr()
+            pa = PC(list(args[0])); c_ast = pa.expr()
+            if pa.peek()[0] != "eof":
+                raise TranslateError(f"{name}!: condition not understood")
             pre = []
             c = self.cond(c_ast, st, pre)
+            if name == "debug_assert":
+                # NOT the same text as `assert!` (audit 3, F3): the marker `Glue.debugAssert` (lean/CxVerif/Util/GlueDebug.lean) is a
+                # wrapper that is not definitionally its argument; assert! <-> debug_assert! in the source breaks the tie
+                return self.wrap(pre, If(f"Glue.debugAssert ({c.t})", rest(st), Fail()))
             return self.wrap(pre, If(c.t, rest(st), Fail()))
         raise TranslateError(f"unsupported macro {name}!")
 
@@ -2631,6 +2657,13 @@ class Tr:
     def translate(self):
         sp = self.spec
         hdr, body = find_fn_unique(self.src, sp.fn, sp.scope)
+        # statement attributes, nested items (local `macro_rules!` are expanded below), inner-block shadowing, `let x = &mut …` aliases,
+        # re-bound `&mut` parameters and changed imports are refused (tools/ktx_glue_guard.py)
+        # (block scoping of shadowed names is translated here: do_block marks a shadowed outer variable `dead`; nested `fn` items are
+        # accepted only when the spec maps the local call to the kernel generated from that very item: `local_ext`)
+        nested_ok = tuple(n for (o, n) in (getattr(sp, "local_ext", None) or {}) if o is None)
+        GUARD.lint_fn(hdr + " {", body, what=f"fn {sp.fn}", macro_rules_ok=True, shadow_ok=True, nested_ok=nested_ok)
+        GUARD.check_fn_uses(sp.file, strip_comments(self.src), hdr, body, what=f"fn {sp.fn}")
         body = expand_local_macros(body)
         self.idents = {t[1] for t in lex(body) if t[0] == "id"} | {t[1] for t in lex(hdr) if t[0] == "id"}
         self.spec_hints = dict(getattr(sp, "hints", {}) or {})
